@@ -190,6 +190,16 @@ EvRetLight == /\ Light /\ IsEvent("ret")
               /\ pend' = <<>>
               /\ UNCHANGED <<allowed, lasts, acc>>
 
+\* shape of the reference run: item kinds in order, why it stopped, why the error (if any) arose,
+\* number of IPFIX sets the reference dropped for an unknown template
+Shape0(run) ==
+  LET ks == FoldLeft(LAMBDA a, it : a \o (IF a = "" THEN "" ELSE ",") \o it.k, "", run.out)
+      n == Len(run.out)
+      why == IF n > 0 /\ run.out[n].k = "err" THEN run.out[n].why ELSE ""
+      unk == Cardinality({<<i, d>> \in (1..n) \X (1..8) :
+                            run.out[i].k = "ipfix" /\ d <= Len(run.out[i].dropped) /\ run.out[i].dropped[d].why = "unknown-template"})
+  IN ks \o "|" \o run.stop \o "|" \o why \o "|" \o ToString(unk)
+
 EvRet == /\ ~Light /\ IsEvent("ret")
          /\ pend # <<>> /\ pend[1].p = Rec[l].p
          /\ LET ev == Rec[l]
@@ -198,13 +208,14 @@ EvRet == /\ ~Light /\ IsEvent("ret")
                 j  == Judge(pend[1].buf, allowed[p], tms[p], lasts[p], ev.out, post)
             IN /\ Emit(j.findings \cup Isolation(ev, p) \cup UnknownNotDecoded(ev.out, tms[p])
                        \cup CostFindings(pend[1].buf, ev, tms[p]) \cup JsonFindings(ev.json))
+               \* coverage record: which antecedents held on this event (decided by the reference run)
                /\ PrintT("COV~~" \o ToString(l) \o "~~" \o Bool(j.matched) \o "~~" \o Bool(j.conf) \o "~~"
-                         \o JoinSet(j.dev) \o "~~" \o ToString(Len(ev.out)))
+                         \o JoinSet(j.dev) \o "~~" \o ToString(Len(ev.out)) \o "~~" \o Shape0(j.run))
                /\ (("DEBUG" \in DOMAIN IOEnv /\ ~j.matched) => PrintT(<<"DEBUG-IDEAL", l, j.run.out, j.run.stop, "ALLDEVS", RunCall(pend[1].buf, ObsTm(tms[p], lasts[p]), allowed[p], AllDevs).out>>))
                /\ tms' = [tms EXCEPT ![p] = post]
                /\ lasts' = [lasts EXCEPT ![p] = j.last]
                /\ acc' = [acc EXCEPT ![p] = [out |-> @.out \o ev.out, nbytes |-> @.nbytes + Len(pend[1].buf),
-                                             calls |-> Append(@.calls, [n |-> Len(pend[1].buf), out |-> ev.out]),
+                                             calls |-> Append(@.calls, [n |-> Len(pend[1].buf), out |-> ev.out, buf |-> pend[1].buf]),
                                              shas |-> Append(@.shas, ev.json.sha)]]
          /\ pend' = <<>>
          /\ UNCHANGED allowed
@@ -265,8 +276,10 @@ RoundFindings(ev) ==
            \cup (IF A.out # B.out \/ tms[ev.a] # tms[ev.b] THEN {<<"C06", "twins", "results-or-cache", "">>} ELSE {})
       ELSE {}
   ELSE IF ev.kind = "trunc" THEN
+    \* a was fed, in one call, the bytes b was fed followed by a packet that TruncatedAt says is cut
     LET A == acc[ev.a]  B == acc[ev.b]  n == Len(A.out) IN
     IF NoErr(B.out) /\ SumSeq([i \in 1..Len(B.out) |-> ObsWire(B.out[i])]) = B.nbytes /\ A.nbytes > B.nbytes
+         /\ Len(A.calls) = 1 /\ TruncatedAt(A.calls[1].buf, B.nbytes + 1)
       THEN (IF n = 0 \/ A.out[n].k # "err" \/ SubSeq(A.out, 1, n - 1) # B.out
               THEN {<<"C14", "trunc", "earlier-items", "">>} ELSE {})
            \cup (IF n > 0 /\ A.out[n].k = "err" /\ A.out[n].ver \in {5, 7, 10} /\ tms[ev.a] # tms[ev.b]
